@@ -244,6 +244,52 @@ def _is_pure(e):
   return True
 
 
+_LOG_METHODS = ('debug', 'info', 'warn', 'warning', 'error', 'exception', 'critical', 'log')
+
+
+def _is_log_stmt(st):
+  """`<logger>.<level>(<side-effect free args>)` as a statement: no property depends on it."""
+  if not (isinstance(st, ast.Expr) and isinstance(st.value, ast.Call) and isinstance(st.value.func, ast.Attribute)):
+    return False
+  c = st.value
+  if c.func.attr not in _LOG_METHODS:
+    return False
+  r = c.func.value
+  if isinstance(r, ast.Call):
+    ok = isinstance(r.func, ast.Attribute) and r.func.attr == 'getLogger' or isinstance(r.func, ast.Name) and r.func.id == 'getLogger'
+  else:
+    last = r.attr if isinstance(r, ast.Attribute) else r.id if isinstance(r, ast.Name) else ''
+    ok = 'log' in last.lower() and isinstance(r, (ast.Name, ast.Attribute))
+  if not ok:
+    return False
+  for a in list(c.args) + [k.value for k in c.keywords]:
+    for n in ast.walk(a):
+      if isinstance(n, (ast.Call,)):
+        if not (isinstance(n.func, ast.Name) and n.func.id in ('len', 'int', 'float', 'str', 'bool', 'repr', 'id', 'type')):
+          return False
+      if isinstance(n, (ast.Yield, ast.YieldFrom, ast.Await, ast.NamedExpr, ast.Lambda, ast.ListComp, ast.GeneratorExp, ast.SetComp, ast.DictComp)):
+        return False
+  return True
+
+
+def strip_logging(tree, stats):
+  """Remove logger statements everywhere (replaced by `pass` only where a block would become empty)."""
+  for node in ast.walk(tree):
+    for fld in ('body', 'orelse', 'finalbody'):
+      v = getattr(node, fld, None)
+      if isinstance(v, list) and v and isinstance(v[0], ast.stmt) and not isinstance(node, ast.Module):
+        keep = [st for st in v if not _is_log_stmt(st)]
+        if len(keep) != len(v):
+          stats['log_stmts'] = stats.get('log_stmts', 0) + len(v) - len(keep)
+          if not keep:
+            keep = [ast.Pass(lineno=v[0].lineno, col_offset=v[0].col_offset)]
+          setattr(node, fld, keep)
+    if isinstance(node, ast.ExceptHandler):
+      keep = [st for st in node.body if not _is_log_stmt(st)]
+      if len(keep) != len(node.body):
+        node.body = keep or [ast.Pass(lineno=node.lineno, col_offset=node.col_offset)]
+
+
 def _blocks(fnode):
   """All statement lists of a function (not descending into nested defs)."""
   out = []
@@ -299,6 +345,14 @@ def inline_new_temporaries(fnode, base_names, stats):
       all_uses = _loads(fnode, nm)
       own_uses = _loads(fnode, nm, into_nested=False)
       if not all_uses:
+        # a new local that is never read: dropping a pure definition changes nothing
+        if _is_pure(S.value):
+          blk.remove(S)
+          if not blk:
+            blk.append(ast.Pass(lineno=S.lineno, col_offset=S.col_offset))
+          stats['temps'] = stats.get('temps', 0) + 1
+          changed = True
+          break
         continue
       if _is_pure(S.value):
         for u in all_uses:
@@ -375,6 +429,51 @@ def _replace_node(root, old, new):
   return False
 
 
+_MIRROR = {ast.Eq: ast.Eq, ast.NotEq: ast.NotEq, ast.Lt: ast.Gt, ast.Gt: ast.Lt, ast.LtE: ast.GtE, ast.GtE: ast.LtE}
+
+
+def compare_texts(fnode):
+  return sorted(set(ast.unparse(n) for n in own_nodes(fnode) if isinstance(n, ast.Compare) and len(n.ops) == 1 and type(n.ops[0]) in _MIRROR))
+
+
+def aug_texts(fnode):
+  return sorted(set(ast.unparse(n) for n in own_nodes(fnode) if isinstance(n, ast.AugAssign)))
+
+
+def restore_augassign(fnode, base_augs, stats):
+  """x = x + c where the reference tree writes x += c (same target, same operator, same operand)."""
+  if not base_augs:
+    return
+  for b in _blocks(fnode):
+    for i, st in enumerate(b):
+      if isinstance(st, ast.Assign) and len(st.targets) == 1 and isinstance(st.value, ast.BinOp) and isinstance(st.targets[0], (ast.Name, ast.Attribute)):
+        t = st.targets[0]
+        if ast.unparse(st.value.left) != ast.unparse(t):
+          continue
+        aug = ast.AugAssign(target=t, op=st.value.op, value=st.value.right, lineno=st.lineno, col_offset=st.col_offset)
+        if ast.unparse(aug) in base_augs:
+          b[i] = aug
+          stats['augs'] = stats.get('augs', 0) + 1
+
+
+def orient_compares(fnode, base_cmps, stats):
+  """a == b written as b == a (or a < b as b > a): bring a comparison of two pure operands back to
+  the orientation the reference tree uses, when only the mirrored spelling occurs there."""
+  if not base_cmps:
+    return
+  for n in own_nodes(fnode):
+    if isinstance(n, ast.Compare) and len(n.ops) == 1 and type(n.ops[0]) in _MIRROR:
+      if ast.unparse(n) in base_cmps:
+        continue
+      l, r = n.left, n.comparators[0]
+      if not (_is_pure(l) and _is_pure(r)):
+        continue
+      m = ast.Compare(left=r, ops=[_MIRROR[type(n.ops[0])]()], comparators=[l])
+      if ast.unparse(m) in base_cmps:
+        n.left, n.ops, n.comparators = r, m.ops, [l]
+        stats['mirrored'] = stats.get('mirrored', 0) + 1
+
+
 def rename_function(fnode, rel, qualname, base_funcs, stats):
   base = base_funcs.get(rel + '::' + qualname)
   if base is None:
@@ -403,6 +502,14 @@ def rename_function(fnode, rel, qualname, base_funcs, stats):
         break
   except Exception as e:
     stats['temps_error'] = repr(e)
+  try:
+    restore_augassign(fnode, set(base.get('augs', [])), stats)
+  except Exception as e:
+    stats['aug_error'] = repr(e)
+  try:
+    orient_compares(fnode, set(base.get('compares', [])), stats)
+  except Exception as e:
+    stats['orient_error'] = repr(e)
   # nested functions (by their, possibly renamed, names)
   for n in own_nodes(fnode):
     if isinstance(n, (ast.FunctionDef, ast.AsyncFunctionDef)):
@@ -827,6 +934,10 @@ def normalize_module(tree, rel, stats=None):
   if not b.get('functions'):
     return tree
   try:
+    strip_logging(tree, stats)
+  except Exception as e:
+    stats['log_error'] = repr(e)
+  try:
     inline_new_helpers(tree, rel, b.get('inventory', {}), stats)
   except Exception as e:   # normalisation must never break the analysis
     stats['inline_error'] = repr(e)
@@ -927,7 +1038,7 @@ def baseline_of_tree(trees):
 
   def fn(node, rel, q):
     params, locs = local_defs_fp(node)
-    functions[rel + '::' + q] = {'params': params, 'locals': [[nm, fps] for nm, fps in locs]}
+    functions[rel + '::' + q] = {'params': params, 'locals': [[nm, fps] for nm, fps in locs], 'compares': compare_texts(node), 'augs': aug_texts(node)}
     for n in own_nodes(node):
       if isinstance(n, (ast.FunctionDef, ast.AsyncFunctionDef)):
         fn(n, rel, q + '.' + n.name)
